@@ -152,6 +152,16 @@ class C18(Prop):
                 return {"hand": gin.ricky_made_hand(rng)}
             return {"hand": gin.dense_cards(rng, rng.choice([7, 8]))}
         if kind == "canon":
+            if rng.random() < 0.4:
+                # suits holding equally many cards, all from a few neighbouring ranks around the ace: whatever decides the
+                # order of equally long suits has to tell {A,2} from {3,4}, {A} from {2}, {K,A} from {2,3} apart
+                k = rng.choice([1, 2, 2, 3]); ns = rng.choice([2, 2, 3, 4])
+                pool = rng.choice(["A2345", "A23456", "QKA234", "A234"])
+                hand = []
+                for su in rng.sample("cdhs", ns):
+                    hand += [r + su for r in rng.sample(pool, min(k, len(pool)))]
+                rng.shuffle(hand)
+                return {"hand": hand}
             return {"hand": dense_hand(rng, rng.choice([2, 3, 4, 5, 7]))}
         if kind == "equity":
             game = rng.choice(["PLO", "NLHE"])
